@@ -593,6 +593,86 @@ Section FloatAtoms.
   Qed.
 End FloatAtoms.
 
+(* ================================================================ hexadecimal *)
+(* the general inverse behind the \x escapes: u32::from_str_radix(format!("{:x}", n), 16)
+   = n for every n below 2^32 (the character and string theorems above use it on the 65
+   control characters only, where it is also settled by computation) *)
+Definition hex_value (l : list N) (acc : N) : N := fold_left (fun a c => a * 16 + hex_val c) l acc.
+
+Lemma hex_digit_ok d : d < 16 -> hex_val (hex_digit d) = d /\ is_hex (hex_digit d) = true.
+Proof.
+  intros H.
+  assert (Hall : forallb (fun k => (hex_val (hex_digit (N.of_nat k)) =? N.of_nat k) && is_hex (hex_digit (N.of_nat k)))
+                   (seq 0 16) = true) by (vm_compute; reflexivity).
+  rewrite forallb_forall in Hall. specialize (Hall (N.to_nat d)). rewrite N2Nat.id in Hall.
+  assert (Hin : In (N.to_nat d) (seq 0 16)) by (apply in_seq; lia).
+  apply Hall in Hin. apply andb_true_iff in Hin as [H1 H2]. apply N.eqb_eq in H1. auto.
+Qed.
+
+Lemma hex_value_app l1 l2 acc : hex_value (l1 ++ l2) acc = hex_value l2 (hex_value l1 acc).
+Proof. unfold hex_value. apply fold_left_app. Qed.
+
+Lemma land15 n : N.land n 15 = n mod 16.
+Proof. change 15 with (N.ones 4). rewrite N.land_ones. reflexivity. Qed.
+Lemma shiftr4 n : N.shiftr n 4 = n / 16.
+Proof. rewrite N.shiftr_div_pow2. reflexivity. Qed.
+
+Lemma show_hex_fuel_S f n acc : show_hex_fuel (S f) n acc =
+  if n / 16 =? 0 then hex_digit (n mod 16) :: acc else show_hex_fuel f (n / 16) (hex_digit (n mod 16) :: acc).
+Proof. cbn [show_hex_fuel]. rewrite land15, shiftr4. reflexivity. Qed.
+
+Lemma show_hex_fuel_spec f : forall n acc, n < 16 ^ N.of_nat (S f) ->
+  exists ds, show_hex_fuel (S f) n acc = ds ++ acc /\ forallb is_hex ds = true /\ ds <> [] /\
+    forall a, hex_value ds a = a * 16 ^ N.of_nat (length ds) + n.
+Proof.
+  induction f as [|f IH]; intros n acc Hn; rewrite show_hex_fuel_S.
+  - assert (Hq : n / 16 = 0) by (apply N.div_small; exact Hn). rewrite Hq. cbn [N.eqb].
+    assert (Hm : n mod 16 = n) by (apply N.mod_small; exact Hn). rewrite Hm.
+    destruct (hex_digit_ok n Hn) as [Hv Hh].
+    exists [hex_digit n]. split; [reflexivity|]. split; [cbn; rewrite Hh; reflexivity|]. split; [discriminate|].
+    intros a. cbn. rewrite Hv. lia.
+  - pose proof (N.mod_lt n 16 ltac:(lia)) as Hd.
+    destruct (hex_digit_ok (n mod 16) Hd) as [Hv Hh].
+    destruct (n / 16 =? 0) eqn:Eq.
+    + apply N.eqb_eq in Eq.
+      exists [hex_digit (n mod 16)]. split; [reflexivity|]. split; [cbn; rewrite Hh; reflexivity|]. split; [discriminate|].
+      intros a. cbn. rewrite Hv. pose proof (N.div_mod' n 16). lia.
+    + assert (Hq : n / 16 < 16 ^ N.of_nat (S f)).
+      { apply N.div_lt_upper_bound; [lia|]. rewrite <- N.pow_succ_r'. rewrite <- Nat2N.inj_succ. exact Hn. }
+      destruct (IH (n / 16) (hex_digit (n mod 16) :: acc) Hq) as (ds & E & Hh' & Hne & Hval).
+      exists (ds ++ [hex_digit (n mod 16)]). split.
+      * rewrite E, <- app_assoc. reflexivity.
+      * split; [rewrite forallb_app; apply andb_true_iff; split; [exact Hh'|cbn; rewrite Hh; reflexivity]|]. split; [destruct ds; discriminate|].
+        intros a. rewrite hex_value_app, Hval. cbn. rewrite Hv. rewrite app_length. cbn [length].
+        rewrite Nat.add_1_r, Nat2N.inj_succ, N.pow_succ_r'. pose proof (N.div_mod' n 16). lia.
+Qed.
+
+Lemma hex_value_ge l : forall acc, acc <= hex_value l acc.
+Proof.
+  induction l as [|c l IH]; intros acc; cbn; [lia|]. specialize (IH (acc * 16 + hex_val c)). unfold hex_value in IH. lia.
+Qed.
+
+Lemma parse_hex_value l : forall acc, hex_value l acc < 4294967296 -> parse_hex_u32 l acc = Some (hex_value l acc).
+Proof.
+  induction l as [|c l IH]; intros acc H; [reflexivity|]. cbn [parse_hex_u32].
+  pose proof (hex_value_ge l (acc * 16 + hex_val c)) as Hge. cbn in H. fold (hex_value l (acc * 16 + hex_val c)) in H.
+  assert (E : (acc * 16 + hex_val c <? 4294967296) = true) by (apply N.ltb_lt; lia).
+  rewrite E. apply IH. exact H.
+Qed.
+
+(* u32::from_str_radix(format!("{:x}", n), 16) = n, for every n < 2^32 *)
+Theorem show_hex_inverse n : n < 4294967296 ->
+  parse_hex_u32 (show_hex n) 0 = Some n /\ forallb is_hex (show_hex n) = true /\ show_hex n <> [].
+Proof.
+  intros Hn. unfold show_hex.
+  assert (Hlt : n < 16 ^ N.of_nat (S (N.to_nat (N.size n)))).
+  { rewrite Nat2N.inj_succ, N2Nat.id. change 16 with (2 ^ 4). rewrite <- N.pow_mul_r.
+    eapply N.lt_le_trans; [apply N.size_gt|]. apply N.pow_le_mono_r; lia. }
+  destruct (show_hex_fuel_spec _ n [] Hlt) as (ds & E & Hh & Hne & Hval).
+  rewrite E, app_nil_r. split; [|split; assumption].
+  rewrite parse_hex_value; rewrite Hval; [f_equal; lia|lia].
+Qed.
+
 (* ---- the recorded defect class: a symbol that only the number-prefix path yields *)
 Lemma prefix_path_symbol_witness :
   exists (t : text) (d : cell),
